@@ -163,6 +163,7 @@ def linearise(per, nthreads, cap, exit_code, fault_of_key):
     stops = 0
     mphase = "wait"             # wait / stop / join / exit
     joined = 0
+    poisoned = False
     guard = 0
     while guard < 100000:
         guard += 1
@@ -229,30 +230,38 @@ def linearise(per, nthreads, cap, exit_code, fault_of_key):
                 joined += 1
                 mi += 1
                 continue
-        # deaths, lowest priority: a worker whose log ends while busy died
+        # deaths, lowest priority: a worker whose log ends while busy on a faulty item died; a worker busy on a
+        # sound item died only if the mutex was poisoned and main's join on it is what ended the process
+        # (otherwise its log was merely cut short by process::exit)
         died = False
-        for order in ("fault", "poison"):
-            for w in range(nthreads):
-                if wstate[w] == "busy" and wi[w] == len(workers[w]):
-                    key = workers[w][-1][1]
-                    f = fault_of_key.get(key, 0)
-                    if order == "fault" and f == 2:
-                        labels.append("LDieParse %d" % w)
-                    elif order == "fault" and f == 3:
-                        labels += ["LParsed %d" % w, "LDieLocked %d" % w]
-                    elif order == "poison" and f == 0:
-                        labels += ["LParsed %d" % w, "LDieLocked %d" % w]
-                    else:
-                        continue
-                    wstate[w] = "dead"
-                    died = True
-                    break
-            if died:
+        for w in range(nthreads):
+            if wstate[w] == "busy" and wi[w] == len(workers[w]):
+                key = workers[w][-1][1]
+                f = fault_of_key.get(key, 0)
+                if f == 2:
+                    labels.append("LDieParse %d" % w)
+                elif f == 3:
+                    labels += ["LParsed %d" % w, "LDieLocked %d" % w]
+                    poisoned = True
+                elif f == 0 and poisoned and mphase == "join" and w == joined and exit_code == 1:
+                    labels += ["LParsed %d" % w, "LDieLocked %d" % w]
+                else:
+                    continue
+                wstate[w] = "dead"
+                died = True
                 break
         if died:
             continue
         break
     # how the process ended
+    needs_no_receiver = (mphase == "stop" and stops < nthreads and exit_code == 101) or \
+                        (mphase == "wait" and "joined_producer" not in main and exit_code == 1)
+    if needs_no_receiver and poisoned:
+        # a failed send means every receiver is gone: the workers still busy died on the poisoned mutex
+        for w in range(nthreads):
+            if wstate[w] == "busy" and wi[w] == len(workers[w]) and fault_of_key.get(workers[w][-1][1], 0) == 0:
+                labels += ["LParsed %d" % w, "LDieLocked %d" % w]
+                wstate[w] = "dead"
     if mi == len(main):
         if mphase == "join" and joined == nthreads and exit_code == 0:
             labels.append("LFinish")
